@@ -83,4 +83,4 @@ pub struct WitnessedWrite {
 
 #[cfg(kani)]
 #[path = "/verif/units/kani/core_witness.rs"]
-mod verif_kani;
+pub(crate) mod verif_kani;
